@@ -53,7 +53,7 @@ CHECKS.update({
     "C16": ("model_checking", "stateless schedule exploration of the real code under a controlled scheduler (preemption-bounded DFS + happens-before state caching)",
             "2-3 goroutines get/use/close cached sessions over more partitions than the session cache holds (capacity 1-2, all policies), including expiry while held and factory close racing the holders' closes; the cache's event goroutine and the Remove goroutines are threads of the exploration: held sessions keep working, gets share one session while cached, evicted sessions are torn down exactly once after their last holder, everything is released and no goroutine is left after factory close.", "6/C16"),
     "C17": ("fault_enumeration", "exhaustive product of regional failure patterns over fake regional KMS endpoints on both real plugins",
-            "n = 1..3 (thorough: 4) regions, every preferred region, every subset failing GenerateDataKey and/or Encrypt at wrap time, every {ok, Decrypt fails, wrong data key} assignment at unwrap time, the four v1/v2 pairings and envelopes with an entry removed: success conditions, exactly one entry per succeeded region, identical bytes, preferred-first / at-most-once / stop-at-first-success call order, data-key plaintext wiped.", "6/C17"),
+            "n = 1..3 (thorough: 4) regions, every preferred region, every subset failing GenerateDataKey and/or Encrypt at wrap time, every {ok, Decrypt fails, wrong data key} assignment at unwrap time, the four v1/v2 pairings and envelopes with an entry removed: success conditions, exactly one entry per succeeded region, identical bytes, preferred-first / at-most-once / stop-at-first-success call order, data-key plaintext wiped; the regional endpoints reject requests naming another region's key; plus every interleaving (preemption bound 2-3) of the fan-out goroutines of EncryptKey with 3-4 regions on both (instrumented) plugins.", "6/C17"),
     "C18": ("exploration", "exhaustive product of input shapes checked in both directions against an independent reference implementation written from the documentation",
             "Payload shapes x partition ids x timestamps x revoked x plain/suffixed hierarchy x static/AWS KMS x storage channel (memory, SQL text, DynamoDB v1/v2 items): the reference decodes the bytes the SDK stored with its own decoders (exact JSON keys, base64, ciphertext||tag||nonce, key-id format) and decrypts; the SDK decrypts rows and records the reference wrote; protobuf mapping through the real sidecar handler; v1<->v2 DynamoDB item exchange.", "6/C18"),
     "C20": ("model_checking", K_TECH + "; repetition probes from every state",
